@@ -132,7 +132,26 @@ def run(chk):
                         chk.add_violation("re-casing one mention of a declared name changes whether / how the declarations clash",
                                           {"oracle": "clash-invariance", "profile": prof, "src": r["case"]["src"], "original": recs3[g]["case"]["src"],
                                            "impl": r["impl"].get(prof, ""), "impl_original": recs3[g]["impl"].get(prof, "")})
-    record_exec(chk, recs + recs2 + recs3, sig=lambda r: (hash(r["case"]["src"]) % 1000003,))
+    # every keyword alias, in three letter cases, in every grammatical position of its group: same run as the first alias
+    from . import gen_alias
+    acases = gen_alias.programs(quick, rng)
+    recs4 = execsuite.run(chk, acases, "alias", suite_name="EXEC-aliases")
+    base_i = {c["meta"]["template"]: i for i, c in enumerate(acases) if c["meta"]["alias"] is None}
+    ab = 0
+    for i, r in enumerate(recs4):
+        m = r["case"]["meta"]
+        if not m["same_tree"]:
+            continue
+        for prof in ("debug", "release"):
+            o, b = r["impl"].get(prof, ""), recs4[base_i[m["template"]]]["impl"].get(prof, "")
+            if "timeout" in (o, b):
+                continue
+            if o != b:
+                ab += 1
+                if ab <= 3:
+                    chk.add_violation("a keyword alias or its letter case changes the run", {"oracle": "alias-invariance", "profile": prof, "alias": m["alias"], "group": m["group"],
+                                      "src": r["case"]["src"], "impl": C.decode_hex_fields(o)[:300], "impl_first_alias": C.decode_hex_fields(b)[:300]})
+    record_exec(chk, recs + recs2 + recs3 + recs4, sig=lambda r: (hash(r["case"]["src"]) % 1000003,))
     chk.rule = (f"{n} generated programs x 3 consistent renamings of every variable, parameter and function name into fresh names of "
                 "random kinds (simple / common / proper, ASCII and accented letters) with per-mention case changes and keyword "
                 "re-casing; oracle: stdout bytes and outcome class equal to the original's (debug and release); fixed programs for "
